@@ -26,7 +26,7 @@ def extra_checks(ft, tier, seed):
     out = [harness.codecheck(["spec_classes.types.alias:Alias.__get__", "spec_classes.types.alias:Alias.__set__", "spec_classes.types.alias:Alias.__delete__"])]
     out.append(harness.standin("standin.alias-histories", "bounded/c18.py", ["--standin", "-", os.path.join(harness.VERIF, "replays", PROPERTY), "3" if tier == "quick" else "4"],
                                "path parser and bracket components, composition of get/set/delete into histories, warning category and count",
-                               "6 path forms x passthrough/transform/deprecated x 3 fallbacks x operation sequences of length <= 3 (quick) / 4 (thorough)"))
+                               "6 path forms x passthrough/transform/deprecated x 4 fallbacks (none, flat list, nested list, None) x operation sequences of length <= 3 (quick) / 4 (thorough)"))
     return out
 
 
